@@ -6,7 +6,7 @@ import JjModel.Lemmas.RevsetEval
 namespace JjModel.Revset
 
 /-- The expression grammar covered by `eval_sound` (every commit literal inside the graph).
-Not covered: `reachable`, `heads_range` (optimizer-internal). -/
+Not covered: `heads_range` (optimizer-internal; see `OkEH`). -/
 def OkE (g : Graph) : Expr → Prop
   | .none => True
   | .all => True
@@ -27,7 +27,7 @@ def OkE (g : Graph) : Expr → Prop
   | .diff a b => OkE g a ∧ OkE g b
   | .forkPoint x => OkE g x
   | .latest x _ => OkE g x
-  | .reachable _ _ => False
+  | .reachable s d => OkE g s ∧ OkE g d
   | .headsRange _ _ _ _ => False
 
 theorem refsOf_lt (g : Graph) : ∀ (e : Expr), OkE g e → ∀ x ∈ refsOf e, x < g.size := by
@@ -80,7 +80,12 @@ theorem refsOf_lt (g : Graph) : ∀ (e : Expr), OkE g e → ∀ x ∈ refsOf e, 
   | visibleHeads => intro _ x hx; simp [refsOf] at hx
   | visibleHeadsOrReferenced => intro _ x hx; simp [refsOf] at hx
   | root => intro _ x hx; simp [refsOf] at hx
-  | reachable s d _ _ => intro hok; exact absurd hok (by simp [OkE])
+  | reachable s d ihs ihd =>
+    intro hok x hx
+    simp only [refsOf, List.mem_append] at hx
+    rcases hx with hx | hx
+    · exact ihs hok.1 x hx
+    · exact ihd hok.2 x hx
   | headsRange r h fp f _ _ _ => intro hok; exact absurd hok (by simp [OkE])
   | forkPoint x ih => intro hok; exact ih hok
   | latest x n ih => intro hok; exact ih hok
@@ -118,7 +123,7 @@ theorem resolve_ok : ∀ (e : Expr), OkE g e → OkR g (resolve g refs e) := by
   | union a b iha ihb => intro hok; simp only [resolve, OkR]; exact ⟨iha hok.1, ihb hok.2⟩
   | inter a b iha ihb => intro hok; simp only [resolve, OkR]; exact ⟨iha hok.1, ihb hok.2⟩
   | diff a b iha ihb => intro hok; simp only [resolve, OkR]; exact ⟨iha hok.1, ihb hok.2⟩
-  | reachable s d _ _ => intro hok; exact absurd hok (by simp [OkE])
+  | reachable s d ihs ihd => intro hok; simp only [resolve, OkR]; exact ⟨ihs hok.1, ihd hok.2⟩
   | headsRange r h fp f _ _ _ => intro hok; exact absurd hok (by simp [OkE])
   | forkPoint x ih => intro hok; simp only [resolve, OkR]; exact ih hok
   | latest x n ih => intro hok; simp only [resolve, OkR]; exact ih hok
@@ -169,7 +174,11 @@ theorem resolve_spec (g : Graph) (refs : List Nat) :
   | union a b iha ihb => intro hok p; simp only [resolve, denoteR, denote, iha hok.1, ihb hok.2]
   | inter a b iha ihb => intro hok p; simp only [resolve, denoteR, denote, iha hok.1, ihb hok.2]
   | diff a b iha ihb => intro hok p; simp only [resolve, denoteR, denote, iha hok.1, ihb hok.2]
-  | reachable s d _ _ => intro hok; exact absurd hok (by simp [OkE])
+  | reachable s d ihs ihd =>
+    intro hok p
+    have hD : denoteR g (resolve g refs d) = denote g (refs ++ g.heads) d :=
+      funext fun x => propext (ihd hok.2 x)
+    simp only [resolve, denoteR, denote, hD, ihs hok.1]
   | headsRange r h fp f _ _ _ => intro hok; exact absurd hok (by simp [OkE])
   | forkPoint x ih =>
     intro hok p; simp only [resolve, denoteR, denote, ForkPointOf, HeadsOf, ih hok]
